@@ -74,6 +74,13 @@ type Iface struct {
 	File int    `json:"file"`
 }
 
+// Entry is one element of an interface's `configs:` list: its own literal structname and,
+// optionally, its own probe template (Templ > 0).
+type Entry struct {
+	Structname string `json:"structname"`
+	Templ      int    `json:"templ,omitempty"`
+}
+
 type Case struct {
 	ModPath   string   `json:"modpath"`
 	PkgDir    string   `json:"pkgdir"`  // relative to the module root, "." = root
@@ -93,6 +100,10 @@ type Case struct {
 	Pkgname    *Param `json:"pkgname_expr,omitempty"`
 	Structname *Param `json:"structname,omitempty"`
 	Schema     *Param `json:"schema,omitempty"` // non-nil => require-template-schema-exists: true
+
+	// Entries, when non-empty, is written as the `configs:` list of every listed interface: one
+	// mock per (interface, entry). StructName and Template then belong to the entry.
+	Entries []Entry `json:"entries,omitempty"`
 }
 
 // ---- text ------------------------------------------------------------------------------------
@@ -346,6 +357,23 @@ func (c Case) layout(root string) layout {
 	return l
 }
 
+// templateOf: the probe template of variant k (0 = the root-level one) and the value written
+// for the `template` parameter, spelled like the root-level one.
+func (l layout) templateOf(k int) (file, value string) {
+	if k == 0 {
+		return l.templFile, l.template
+	}
+	file = filepath.Join(filepath.Dir(l.templFile), fmt.Sprintf("probe%d.templ", k))
+	return file, strings.TrimSuffix(l.template, "probe.templ") + filepath.Base(file)
+}
+
+func (c Case) entries() []Entry {
+	if len(c.Listed) == 0 {
+		return nil
+	}
+	return c.Entries
+}
+
 func (c Case) pkgPath() string {
 	if c.PkgDir == "." {
 		return c.ModPath
@@ -577,6 +605,13 @@ func (g *G) dirExpr() []Part {
 
 func (g *G) fileExpr(many bool) []Part {
 	ps := g.safeSeg(many)
+	if len(g.c.Entries) > 0 {
+		// one file per configs: entry: the entry's own name (and sometimes its template) is part of it
+		ps = append(ps, g.maybeEmit([]Part{g.act(v("StructName"))})...)
+		if g.chance("entrytemplate", 40) {
+			ps = append(ps, Part{K: "lit", S: "-"}, g.act(g.call("trimSuffix", g.call("base", v("Template"), nil), []string{".templ"})))
+		}
+	}
 	ps = append(ps, Part{K: "lit", S: g.pick("filesuffix", []string{".gen.txt", "_mock.out", ".mockery"})})
 	return ps
 }
@@ -749,7 +784,26 @@ func gen(t *rapid.T) Case {
 
 	g.emitBudget = g.n("emitbudget", 0, 3)
 	// structname first: the other parameters may refer to it
+	if listed && (flavour == "ok" || flavour == "error") && g.chance("configslist", 40) {
+		pool := []string{"GreeterStub", "GreeterSpy", "fakeImpl", "M2", "Stub_v3", "mockB"}
+		seenSN := map[string]bool{}
+		distinctTempl := g.chance("entrytemplates", 50)
+		for i, n := 0, g.n("nentries", 2, 3); i < n; i++ {
+			sn := g.pick("entrystruct", pool)
+			if seenSN[sn] {
+				continue
+			}
+			seenSN[sn] = true
+			en := Entry{Structname: sn}
+			if distinctTempl {
+				en.Templ = g.n("entrytempl", 0, 2)
+			}
+			c.Entries = append(c.Entries, en)
+		}
+	}
 	switch mode := g.n("structmode", 0, 9); {
+	case len(c.Entries) > 0:
+		g.structSafe = true // literal names, but not visible at package level: no functions over them
 	case flavour == "growth":
 		self := []Part{g.act(v("StructName"))}
 		if g.chance("emitself", 25) {
@@ -817,6 +871,9 @@ func gen(t *rapid.T) Case {
 			tgt = &c.Pkgname
 		case 3:
 			tgt = &c.Structname
+			if len(c.Entries) > 0 {
+				tgt = &c.Filename // the entries own structname
+			}
 		default:
 			tgt = &c.Schema
 		}
@@ -835,7 +892,8 @@ func gen(t *rapid.T) Case {
 // ---------------------------------------------------------------------------------------------
 // scratch tree
 
-const probeTemplate = `PKG {{printf "%q" .PkgName}}
+const probeTemplate = `TPL "@@"
+PKG {{printf "%q" .PkgName}}
 {{range .Interfaces}}IF {{printf "%q" .Name}} {{printf "%q" .StructName}}
 {{end}}`
 
@@ -845,7 +903,7 @@ func yq(s string) string { // YAML double-quoted scalar (printable ASCII only)
 
 type kv struct{ k, v string }
 
-func (c Case) configYAML(l layout, requireSchema bool, params map[string]*Param) string {
+func (c Case) configYAML(l layout, requireSchema bool, params map[string]*Param, entries []Entry) string {
 	var sb strings.Builder
 	w := func(indent int, k, v string) { sb.WriteString(strings.Repeat("  ", indent) + k + ": " + v + "\n") }
 	at := func(level string) []kv {
@@ -875,14 +933,26 @@ func (c Case) configYAML(l layout, requireSchema bool, params map[string]*Param)
 		w(2, "interfaces", "")
 		for _, it := range c.targets() {
 			ifc := at("interface")
-			if len(ifc) == 0 {
+			if len(ifc) == 0 && len(entries) == 0 {
 				w(3, yq(it.Name), "{}")
 				continue
 			}
 			w(3, yq(it.Name), "")
-			w(4, "config", "")
-			for _, e := range ifc {
-				w(5, e.k, e.v)
+			if len(ifc) > 0 {
+				w(4, "config", "")
+				for _, e := range ifc {
+					w(5, e.k, e.v)
+				}
+			}
+			if len(entries) > 0 {
+				w(4, "configs", "")
+				for _, en := range entries {
+					sb.WriteString(strings.Repeat("  ", 5) + "- structname: " + yq(en.Structname) + "\n")
+					if en.Templ > 0 {
+						_, tv := l.templateOf(en.Templ)
+						w(6, "template", yq(tv))
+					}
+				}
 			}
 		}
 	}
@@ -908,6 +978,8 @@ const sep = "|#|"
 var bindOrder = []string{"ConfigDir", "InterfaceDir", "InterfaceDirRelative", "InterfaceFile", "InterfaceName", "Mock", "SrcPackageName", "SrcPackagePath", "Template"}
 
 type probeOut struct {
+	tpl    string
+	pairs  [][2]string // every (interface, struct name) line
 	pkg    string
 	ifaces map[string]string // interface name -> struct name
 	order  []string
@@ -926,6 +998,12 @@ func parseProbe(content string) (probeOut, error) {
 	}
 	for _, ln := range strings.Split(content, "\n") {
 		switch {
+		case strings.HasPrefix(ln, "TPL "):
+			p, _, err := unq(ln[4:])
+			if err != nil {
+				return po, err
+			}
+			po.tpl = p
 		case strings.HasPrefix(ln, "PKG "):
 			p, _, err := unq(ln[4:])
 			if err != nil {
@@ -943,6 +1021,7 @@ func parseProbe(content string) (probeOut, error) {
 			}
 			po.ifaces[name] = sn
 			po.order = append(po.order, name)
+			po.pairs = append(po.pairs, [2]string{name, sn})
 		case strings.TrimSpace(ln) == "":
 		default:
 			return po, fmt.Errorf("unexpected line %q", vh.Trunc(ln, 120))
@@ -1088,7 +1167,7 @@ func (c Case) classify() (fp string, classes []string, kind verdictKind, why str
 		passes := st.passes
 		if name != "structname" && st.structRefs > 0 {
 			passes += structSt.passes
-			if c.Structname == nil {
+			if c.Structname == nil && len(c.entries()) == 0 {
 				passes++
 			}
 		}
@@ -1125,6 +1204,30 @@ func (c Case) classify() (fp string, classes []string, kind verdictKind, why str
 			nt = true
 		} else {
 			kind, why = kDontCare, "unclassified-self-reference"
+		}
+	}
+	if n := len(c.entries()); n > 0 {
+		if c.Structname != nil && kind == kOK {
+			kind, why = kDontCare, "structname-set-above-a-configs-list"
+		}
+		classes = append(classes, fmt.Sprintf("configs-list=%d", n))
+		nt = true
+		for _, en := range c.entries() {
+			if en.Templ > 0 {
+				classes = append(classes, "configs-list/entry-template")
+				break
+			}
+		}
+		for _, name := range []string{"dir", "filename", "pkgname"} {
+			if p := c.params()[name]; p != nil {
+				st := analyse(p.Expr)
+				if st.vars["StructName"] {
+					classes = append(classes, "configs-list/ref="+name+"->StructName@"+p.Level)
+				}
+				if st.vars["Template"] {
+					classes = append(classes, "configs-list/ref="+name+"->Template@"+p.Level)
+				}
+			}
 		}
 	}
 	classes = append(classes, fmt.Sprintf("passes=%d", maxPasses))
@@ -1217,7 +1320,12 @@ func run(c Case) *vh.Violation {
 	targets := c.targets()
 
 	base := c.sources()
-	base[filepath.Join("ws", "mod", c.TemplDir, "probe.templ")] = probeTemplate
+	base[filepath.Join("ws", "mod", c.TemplDir, "probe.templ")] = strings.Replace(probeTemplate, "@@", "0", 1)
+	for _, en := range c.entries() {
+		if en.Templ > 0 {
+			base[filepath.Join("ws", "mod", c.TemplDir, fmt.Sprintf("probe%d.templ", en.Templ))] = strings.Replace(probeTemplate, "@@", strconv.Itoa(en.Templ), 1)
+		}
+	}
 	relTo := func(abs string) string { r, _ := filepath.Rel(root, abs); return r }
 
 	// ---- phase 1: raw bindings --------------------------------------------------------------
@@ -1248,7 +1356,7 @@ func run(c Case) *vh.Violation {
 			}
 		}
 	}
-	cfg1 := c.configYAML(l, false, p1)
+	cfg1 := c.configYAML(l, false, p1, nil)
 	setup(cfg1, nil)
 	files := func(cfg string) map[string]string {
 		m := map[string]string{}
@@ -1345,7 +1453,7 @@ func run(c Case) *vh.Violation {
 			params[k] = p
 		}
 	}
-	cfg2 := c.configYAML(l, c.Schema != nil, params)
+	cfg2 := c.configYAML(l, c.Schema != nil, params, c.entries())
 
 	// reference evaluation
 	exprOf := func(name string, def []Part) []Part {
@@ -1357,53 +1465,77 @@ func run(c Case) *vh.Violation {
 	defStruct := []Part{{K: "act", N: v("Mock")}, {K: "act", N: v("InterfaceName")}}
 	defDir := []Part{{K: "act", N: v("InterfaceDir")}}
 	defPkg := []Part{{K: "act", N: v("SrcPackageName")}}
-	type want struct{ path, pkg, sname string }
+	// one unit = one mock: (interface) or, with a configs: list, (interface, entry)
+	type want struct{ iface, path, pkg, sname, tpl string }
 	wants := map[string]want{}
+	var units []string
 	extra := map[string]string{}
 	schemaPath := ""
+	entries := c.entries()
 	if kind == kOK {
 		for _, it := range targets {
-			b := binds[it.Name]
-			sn, _ := evalOf(exprOf("structname", defStruct), b)
-			b["StructName"] = sn
-			d, _ := evalOf(exprOf("dir", defDir), b)
-			f, _ := evalOf(exprOf("filename", nil), b)
-			p, _ := evalOf(exprOf("pkgname", defPkg), b)
-			path := resolve(l.cwd, filepath.Join(d, f))
-			if d == "" || f == "" || !under(path, l.mod) || path == l.mod {
-				vh.Invalid()
-				vh.Note("generated output path outside the module: dir=%q filename=%q", stripRoot(d), f)
-				return nil
+			n := len(entries)
+			if n == 0 {
+				n = 1
 			}
-			wants[it.Name] = want{path: path, pkg: p, sname: sn}
-		}
-		if c.Schema != nil {
-			b := Bind{}
-			for k, v := range binds[targets[0].Name] {
-				b[k] = v
-			}
-			for _, n := range []string{"InterfaceDir", "InterfaceDirRelative", "InterfaceFile", "InterfaceName", "Mock", "StructName"} {
-				b[n] = ""
-			}
-			sv, _ := evalOf(c.Schema.Expr, b)
-			if !strings.HasPrefix(sv, "file://") || !strings.HasSuffix(sv, ".json") {
-				vh.Invalid()
-				vh.Note("generated template-schema value is not a file URL: %q", stripRoot(sv))
-				return nil
-			}
-			schemaPath = resolve(l.cwd, strings.TrimPrefix(sv, "file://"))
-			if !under(schemaPath, root) {
-				vh.Invalid()
-				return nil
-			}
-			for p := filepath.Dir(schemaPath); under(p, root) && p != root; p = filepath.Dir(p) {
-				if fi, err := os.Stat(p); err == nil && !fi.IsDir() {
+			for ei := 0; ei < n; ei++ {
+				b := Bind{}
+				for k, v := range binds[it.Name] {
+					b[k] = v
+				}
+				id, tpl := it.Name, "0"
+				if len(entries) > 0 {
+					// StructName and Template are those of the entry
+					id = fmt.Sprintf("%s#%d", it.Name, ei)
+					b["StructName"] = entries[ei].Structname
+					_, b["Template"] = l.templateOf(entries[ei].Templ)
+					tpl = strconv.Itoa(entries[ei].Templ)
+				} else {
+					sn, _ := evalOf(exprOf("structname", defStruct), b)
+					b["StructName"] = sn
+				}
+				d, _ := evalOf(exprOf("dir", defDir), b)
+				f, _ := evalOf(exprOf("filename", nil), b)
+				p, _ := evalOf(exprOf("pkgname", defPkg), b)
+				path := resolve(l.cwd, filepath.Join(d, f))
+				if d == "" || f == "" || !under(path, l.mod) || path == l.mod {
 					vh.Invalid()
-					vh.Note("generated schema path lies below a file")
+					vh.Note("generated output path outside the module: dir=%q filename=%q", stripRoot(d), f)
 					return nil
 				}
+				wants[id] = want{iface: it.Name, path: path, pkg: p, sname: b["StructName"], tpl: tpl}
+				units = append(units, id)
+				if c.Schema == nil {
+					continue
+				}
+				// the schema of the file this mock goes to; only Template can differ between units
+				sb := Bind{}
+				for k, v := range b {
+					sb[k] = v
+				}
+				for _, n := range []string{"InterfaceDir", "InterfaceDirRelative", "InterfaceFile", "InterfaceName", "Mock", "StructName"} {
+					sb[n] = ""
+				}
+				sv, _ := evalOf(c.Schema.Expr, sb)
+				if !strings.HasPrefix(sv, "file://") || !strings.HasSuffix(sv, ".json") {
+					vh.Invalid()
+					vh.Note("generated template-schema value is not a file URL: %q", stripRoot(sv))
+					return nil
+				}
+				schemaPath = resolve(l.cwd, strings.TrimPrefix(sv, "file://"))
+				if !under(schemaPath, root) {
+					vh.Invalid()
+					return nil
+				}
+				for p := filepath.Dir(schemaPath); under(p, root) && p != root; p = filepath.Dir(p) {
+					if fi, err := os.Stat(p); err == nil && !fi.IsDir() {
+						vh.Invalid()
+						vh.Note("generated schema path lies below a file")
+						return nil
+					}
+				}
+				extra[relTo(schemaPath)] = "{}\n"
 			}
-			extra[relTo(schemaPath)] = "{}\n"
 		}
 	}
 	setup(cfg2, extra)
@@ -1438,6 +1570,10 @@ func run(c Case) *vh.Violation {
 			if p := c.params()[name]; p != nil {
 				s += fmt.Sprintf("%-16s @%-9s %s\n", name, p.Level, textOf(p.Expr))
 			}
+		}
+		for i, en := range entries {
+			_, tv := l.templateOf(en.Templ)
+			s += fmt.Sprintf("configs[%d]       structname=%q template=%s\n", i, en.Structname, stripRoot(tv))
 		}
 		s += "--- new files\n"
 		for _, p := range newFiles {
@@ -1502,16 +1638,26 @@ func run(c Case) *vh.Violation {
 		return vh.Violate("mockery/"+layoutKey+"/valid-expressions/exit", "all templated values are well-formed and stabilise, but mockery exited %d", r2.Exit).With(tree2, obs())
 	}
 	byPath := map[string][]string{}
-	for _, it := range targets {
-		byPath[wants[it.Name].path] = append(byPath[wants[it.Name].path], it.Name)
+	for _, id := range units {
+		byPath[wants[id].path] = append(byPath[wants[id].path], id)
 	}
 	for _, names := range byPath {
-		for _, n := range names[1:] {
-			if wants[n].pkg != wants[names[0]].pkg {
-				vh.DontCare("two-interfaces-one-file-different-pkgname")
+		seen := map[string]bool{}
+		for _, n := range names {
+			if wants[n].pkg != wants[names[0]].pkg || wants[n].tpl != wants[names[0]].tpl {
+				vh.DontCare("two-mocks-one-file-different-pkgname-or-template")
 				return nil
 			}
+			if seen[wants[n].iface] {
+				vh.DontCare("two-mocks-of-one-interface-in-one-file")
+				return nil
+			}
+			seen[wants[n].iface] = true
 		}
+	}
+	entryKey := ""
+	if len(entries) > 0 {
+		entryKey = "configs-list/"
 	}
 	var unexpected []string
 	for _, p := range newFiles {
@@ -1539,30 +1685,33 @@ func run(c Case) *vh.Violation {
 					which = feature("filename")
 				}
 			}
-			return vh.Violate("mockery/"+which+"/file-not-at-expected-location", "mock for %v expected at %s (dir and filename evaluated by the reference, resolved against cwd); files written instead: %v", names, stripRoot(p), unexpected).With(tree2, obs())
+			return vh.Violate("mockery/"+entryKey+which+"/file-not-at-expected-location", "mock for %v expected at %s (dir and filename evaluated by the reference, resolved against cwd); files written instead: %v", names, stripRoot(p), unexpected).With(tree2, obs())
 		}
 		po, err := parseProbe(string(content))
 		if err != nil {
 			vh.Infra("probe output unreadable at %s: %v", p, err)
 		}
+		if po.tpl != wants[names[0]].tpl {
+			return vh.Violate("mockery/"+entryKey+"template/wrong-template-used", "%s was rendered by probe template %q, the entry names template %q", stripRoot(p), po.tpl, wants[names[0]].tpl).With(tree2, obs())
+		}
 		if po.pkg != wants[names[0]].pkg {
-			return vh.Violate("mockery/"+feature("pkgname")+"/value-mismatch", "pkgname for %s: observed %q, reference evaluation %q", names[0], stripRoot(po.pkg), stripRoot(wants[names[0]].pkg)).With(tree2, obs())
+			return vh.Violate("mockery/"+entryKey+feature("pkgname")+"/value-mismatch", "pkgname for %s: observed %q, reference evaluation %q", names[0], stripRoot(po.pkg), stripRoot(wants[names[0]].pkg)).With(tree2, obs())
+		}
+		if len(po.pairs) != len(names) {
+			return vh.Violate("mockery/"+entryKey+feature("filename")+"/foreign-interface-in-file", "%s holds %v, expected exactly %v", stripRoot(p), po.pairs, names).With(tree2, obs())
 		}
 		for _, n := range names {
-			got, ok := po.ifaces[n]
+			got, ok := po.ifaces[wants[n].iface]
 			if !ok {
-				return vh.Violate("mockery/"+feature("filename")+"/interface-not-in-its-file", "interface %s is missing from %s", n, stripRoot(p)).With(tree2, obs())
+				return vh.Violate("mockery/"+entryKey+feature("filename")+"/interface-not-in-its-file", "interface %s is missing from %s", n, stripRoot(p)).With(tree2, obs())
 			}
 			if got != wants[n].sname {
-				return vh.Violate("mockery/"+feature("structname")+"/value-mismatch", "structname for %s: observed %q, reference evaluation %q", n, stripRoot(got), stripRoot(wants[n].sname)).With(tree2, obs())
+				return vh.Violate("mockery/"+entryKey+feature("structname")+"/value-mismatch", "structname for %s: observed %q, reference evaluation %q", n, stripRoot(got), stripRoot(wants[n].sname)).With(tree2, obs())
 			}
-		}
-		if len(po.ifaces) != len(names) {
-			return vh.Violate("mockery/"+feature("filename")+"/foreign-interface-in-file", "%s holds %v, expected exactly %v", stripRoot(p), po.order, names).With(tree2, obs())
 		}
 	}
 	if len(unexpected) > 0 {
-		return vh.Violate("mockery/"+feature("dir")+"/"+feature("filename")+"/extra-file", "files written that no templated value points to: %v", unexpected).With(tree2, obs())
+		return vh.Violate("mockery/"+entryKey+feature("dir")+"/"+feature("filename")+"/extra-file", "files written that no templated value points to: %v", unexpected).With(tree2, obs())
 	}
 	return nil
 }
